@@ -13,6 +13,7 @@ RULE = ('histories of 1-6 hypotheses over {a,b,c} (len 0-6; classes: random, pre
         'empty hypotheses, all orders of a small set) with positive scores, through add_hypothese / produce_cn_from_boh / normalize_cn / '
         'best_cn_path / sorted_cn_paths. non-trivial = at least two different non-empty hypotheses; distinct = hash of the history Weights many orders of magnitude apart; peaky bags; single hypotheses of 1000-1500 symbols. Bags as generators; default weights on a bag built with another LM scale.')
 RULE += ' Round 6: A second network after add + sort on the same bag; hypotheses of class indices; a network of 3^13 paths.'
+RULE += ' Round 7: Raw masses within 1e-6 of 1; a light hypothesis added after normalisation; hypotheses of more than 4096 symbols.'
 ASSUMPTIONS = ['symbols are 1-character strings (sorted_cn_paths concatenates them)',
                'all readable strings are enumerated when the network has <= 4000 arc combinations, otherwise only the added hypotheses are required to stay readable']
 N = {'quick': 4000, 'thorough': 300000}
